@@ -218,6 +218,18 @@ fn build_member(idx: usize, n: usize, x: usize, cfg: &Value, picker: &mut Picker
     let mut openings = Vec::new();
     let mut commitments = Vec::new();
     let mut blindings: Vec<Vec<Scalar>> = Vec::new();
+    // dup_openings [[a, b], ..]: opening b IS opening a (same value, same blinding factors), so commitments a and b are equal points;
+    // their promises may differ
+    let mut dup_src: Vec<usize> = (0..m).collect();
+    if let Some(d) = cfg["dup_openings"].as_array() {
+        for pr in d {
+            let (a, b) = (pr[0].as_u64().unwrap_or(0) as usize, pr[1].as_u64().unwrap_or(0) as usize);
+            if a < m && b < m {
+                dup_src[b] = a;
+                values[b] = values[a];
+            }
+        }
+    }
     for j in 0..m {
         let eqb = cfg["equal_blindings"].as_bool().unwrap_or(false);
         // blindings_count < x: a witness of LOWER extension degree than the statement whose short vectors do reproduce the commitments
@@ -232,7 +244,7 @@ fn build_member(idx: usize, n: usize, x: usize, cfg: &Value, picker: &mut Picker
             // the all-zero mask: with value 0 the commitment is the identity element (a valid witness)
             vec![Scalar::ZERO; nb]
         } else {
-            (0..nb).map(|k| env::sym_scalar(&format!("r_{}_{}_{}", nidx, j, if eqb { 0 } else { k }), "blinding")).collect()
+            (0..nb).map(|k| env::sym_scalar(&format!("r_{}_{}_{}", nidx, dup_src[j], if eqb { 0 } else { k }), "blinding")).collect()
         };
         // single blinding COMPONENTS equal to zero (a valid witness; the mask to recover then has zero entries)
         if let Some(zc) = cfg["zero_blinding_components"].as_array() {
